@@ -52,7 +52,9 @@ CLAIMED["C17"] = (
     "Proof (all environments, initial states, inputs, finite histories): every returned identifier is canonical v4; a read never changes the file system when a non-empty identifier file exists and that file keeps its bytes "
     "along any history without regeneration; identifier stability (id_stable_partial) provided the default configuration directory exists — the full statement IdStable is refuted by id_unstable_witness (known finding absent-config-dir); "
     "marker exclusivity is established by any returning register/unregister and preserved by every operation incl. failing ones; a marker symlink is replaced by a regular file, no outside path or identifier file is touched by marker operations; "
-    "OSError only from directories. Tied: generated histories + canonicalisation strings, state and result compared after every operation.",
+    "OSError only from directories. Readers and writers: every entry point that returns the identifier (generate_machine_id default/explicit, client.get_machine_id, InsightsClient.get_machine_id, create_system, legacy unregister, inventory look-up) "
+    "and every path that regenerates or deletes it (new=True, create_system(True), connection.unregister, handle_unregistration, registration_check) is an operation of the model: read_is_file, readers_agree, stability and exclusivity over all of them. "
+    "Tied: generated histories + canonicalisation strings, state and result compared after every operation; interleaved entry-point histories in a child interpreter with INSIGHTS_CONF_DIR set, one fork per history, only the HTTP session faked.",
     "Trusted: Lean kernel + propext/Classical.choice/Quot.sound; harness/c17.py (generators, lstat/readlink/bytes snapshot, cert_auth fake); assumed: no directory is created or removed by the modelled code, symlink targets lie outside the five modelled locations, "
     "ASCII identifier content, no permission errors; uuid4, subscription identity and clock are inputs.",
     "DESIGN.md §6 C17")
